@@ -216,6 +216,14 @@ class ScriptedPeer(PeerBase):
             else:
                 b[-1] ^= 0x55
             return self.send(s, bytes(b), 0, n)
+        if name == "badstray":          # a damaged answer now and, after a delay, a few more stray bytes of that transmission (on whatever connection it came in)
+            b = bytearray(v)
+            if self.framing == "tcp":
+                b[8] = max(0, b[8] - 2)     # (a byte count that is too SMALL: refused at once, not awaited as a fragment)
+            else:
+                b[-1] ^= 0x55
+            self.send(s, bytes(b), 0, n, 1)
+            return self.send(s, b"\x5a\x00\xa5", args[0], n, 2)
         if name == "excbad":            # exception frame with a wrong checksum (Modbus/TCP has none: sent intact there)
             e = self.exception(req, 2)
             if e is None:
